@@ -536,3 +536,38 @@ def rule_clients(ctx):
     else:
         r.skip("Circuit*.copy[info forked]", "no explicit fork of gate_opts['info'] found in copy()")
     return r
+
+
+# ----------------------------------------------------------- record consumers
+def rule_record_consumers(ctx):
+    r = RuleResult(
+        "record-consumers",
+        "the record is a (min, max) range: a record-aware function that uses it to *skip* canonicalisation (an "
+        "early return / shortcut taken under a test on the record) must test both ends — a test on "
+        "cur_orthog[0] alone (or [1] alone) accepts a range record whose other end lies beyond the bond",
+    )
+    funcs = ra_functions(ctx)
+    n = 0
+    for f in funcs:
+        where = f"{f.module.relpath}:{f.lineno}"
+        for iff in ast.walk(f.node):
+            if not isinstance(iff, ast.If):
+                continue
+            t = src_of(iff.test).replace(" ", "")
+            uses0 = "cur_orthog[0]" in t or "cur_orthog[0]" in t.replace("info['cur_orthog']", "cur_orthog").replace('info["cur_orthog"]', "cur_orthog")
+            uses1 = "cur_orthog[1]" in t or "cur_orthog[-1]" in t
+            whole = "cur_orthog==" in t or "==cur_orthog" in t
+            if not (uses0 or uses1):
+                continue
+            shortcut = any(isinstance(x, ast.Return) for s_ in iff.body for x in ast.walk(s_)) and not any(
+                isinstance(x, ast.Call) and isinstance(x.func, ast.Attribute) and x.func.attr.startswith("canonic") for s_ in iff.body for x in ast.walk(s_))
+            n += 1
+            if shortcut and (uses0 != uses1) and not whole:
+                r.bad(Finding("record-consumers", f.qualname,
+                              f"takes a shortcut (returns without canonicalising) under `{src_of(iff.test)[:60]}` (line {iff.lineno}), which looks at one end of the "
+                              f"recorded range only", where=where, operand="one-ended"))
+            else:
+                r.ok(f"{f.qualname}[line {iff.lineno}]", sample={"function": f.qualname, "test": src_of(iff.test)[:60]})
+    # the sorting use in compute_local_expectation_canonical is not a shortcut; rule is armed even with zero tests today
+    r.ok("record-consumers[armed]", nontrivial=False)
+    return r
